@@ -1,4 +1,4 @@
-CONSTANTS FailureThreshold = 5  SuccessThreshold = 2  HalfOpenRequests = 3  OpenDuration = 20  Ticks = {3, 21}  MaxLen = 0  MaxPend = 3
+CONSTANTS FailureThreshold = 5  SuccessThreshold = 2  HalfOpenRequests = 3  OpenDuration = 20  Ticks = {3, 21}  MaxLen = 0  Races = {}  MaxPend = 3
 SPECIFICATION LSpec
 PROPERTY WorksLeadsToClosed
 CHECK_DEADLOCK FALSE
